@@ -9,6 +9,14 @@
 //!   mixed   random fed / starved stretches: expiry only if some run of at least L-2 consecutive interval
 //!           ticks found no publish request, and certainly after a run of L+2; keep-alive gaps judged
 //!           inside long fed stretches
+//!   paced   the client sends publish requests at a steady or jittered pace: one request every P intervals
+//!           (gaps P, alternating P / P-1, or random in 1..=P), the first one `offset` intervals after
+//!           creation, each sent just after a timer tick. With offset >= 1 the subscription is already Late
+//!           when the requests come, so every request is consumed on arrival and no timer tick ever finds
+//!           one queued; with offset 0 they wait for the timer. Same verdicts as mixed: an interval counts
+//!           as request-less only if no request was queued at its tick AND none arrived (and was answered)
+//!           during it, so with P <= L-2 the subscription must never expire however long the history is,
+//!           and with P >= L+3 it must.
 use crate::common::*;
 use crate::eng::*;
 use opcua::server::prelude::*;
@@ -24,14 +32,17 @@ struct Case {
     enabled: bool,
     items: u8, // 0 none, 1 item on a variable that never changes, 2 item whose variable changes every tick
     n: i64,    // starve: intervals without requests
-    seed: u64, // mixed
+    seed: u64, // mixed, paced with jitter 2
+    period: i64, // paced: P
+    offset: i64, // paced: intervals between creation and the first request
+    jitter: u8,  // paced: 0 every gap P, 1 gaps alternate P and P-1, 2 gaps random in 1..=P
 }
 
 impl Case {
     fn to_json(&self) -> Value {
         json!({"prop": "C22", "class": self.class(), "mode": self.mode, "k": self.k, "l": self.l,
                "interval": self.interval, "div": self.div, "enabled": self.enabled, "items": self.items,
-               "n": self.n, "seed": self.seed})
+               "n": self.n, "seed": self.seed, "period": self.period, "offset": self.offset, "jitter": self.jitter})
     }
     fn from_json(v: &Value) -> Case {
         Case {
@@ -44,6 +55,9 @@ impl Case {
             items: v["items"].as_u64().unwrap_or(0) as u8,
             n: v["n"].as_i64().unwrap_or(0),
             seed: v["seed"].as_u64().unwrap_or(0),
+            period: v["period"].as_i64().unwrap_or(1).max(1),
+            offset: v["offset"].as_i64().unwrap_or(0).max(0),
+            jitter: v["jitter"].as_u64().unwrap_or(0) as u8,
         }
     }
     fn class(&self) -> String {
@@ -52,6 +66,11 @@ impl Case {
             "starve" => {
                 let l = self.l.max(3 * self.k) as i64;
                 format!(" n-l={}", (self.n - l).clamp(-4, 6))
+            }
+            "paced" => {
+                let l = self.l.max(3 * self.k) as i64;
+                let prel = if self.period <= l - 2 { format!("P{}", self.period.min(13)) } else { format!("P-l={}", (self.period - l).clamp(-1, 6)) };
+                format!(" {} {} jitter{}", prel, if self.offset == 0 { "first-request-at-creation" } else { "first-request-when-late" }, self.jitter)
             }
             _ => String::new(),
         };
@@ -289,33 +308,90 @@ fn run_case(c: &Case, obs: &mut Obs) -> Vec<Finding> {
             // A subscription can only expire through a run of about L such ticks, and notifications queued
             // before the expiry are delivered ahead of the status change, so "premature" is judged against
             // the longest run seen so far and "overdue" against the current run.
-            let mut rng = Rng::new(c.seed);
+            let paced = c.mode == "paced";
+            let mut sched: Vec<bool> = Vec::new();
+            if paced {
+                let mut rng = Rng::new(c.seed);
+                let total = 3 * l + 2 * c.period + 4;
+                let mut next = c.offset;
+                let mut i = 0i64;
+                while (sched.len() as i64) < total {
+                    let at = sched.len() as i64;
+                    if at == next {
+                        sched.push(true);
+                        let gap = match c.jitter {
+                            0 => c.period,
+                            1 => if i % 2 == 0 { c.period } else { (c.period - 1).max(1) },
+                            _ => rng.range(1, c.period),
+                        };
+                        i += 1;
+                        next = at + gap.max(1);
+                    } else {
+                        sched.push(false);
+                    }
+                }
+            } else {
+                let mut rng = Rng::new(c.seed);
+                let phases = 6 + rng.below(6);
+                for ph in 0..phases {
+                    let fed = if ph == 0 { rng.bool() } else { ph % 2 == (c.seed % 2) as u64 };
+                    let len = if fed {
+                        1 + rng.below((3 * k + 4) as u64) as i64
+                    } else {
+                        match rng.below(4) {
+                            0 => rng.range(1, 3),
+                            1 => rng.range(l - 4, l - 3).max(1),
+                            2 => rng.range(l + 2, l + 4),
+                            _ => rng.range(1, l + 4),
+                        }
+                    };
+                    for _ in 0..len {
+                        sched.push(fed);
+                    }
+                }
+            }
+            // what the history looked like, for signatures (paced) and details
+            let how = if paced {
+                format!(
+                    "one publish request every {} intervals ({}), the first {} interval(s) after creation",
+                    c.period,
+                    match c.jitter { 0 => "steady", 1 => "gaps alternate P and P-1", _ => "gaps random in 1..=P" },
+                    c.offset
+                )
+            } else {
+                format!("seed {}", c.seed)
+            };
+            let mut waited_for_timer = false; // some timer tick found a request queued
             let mut starved_run: i64 = 0;
             let mut max_starved_run: i64 = 0;
             let mut fed_run: i64 = 0;
             let mut last_msg_t: i64 = 0;
-            let phases = 6 + rng.below(6);
             let is_timeout = |b: &Body| matches!(b, Body::Status(s) if *s == StatusCode::BadTimeout);
-            'outer: for ph in 0..phases {
-                let fed = if ph == 0 { rng.bool() } else { ph % 2 == (c.seed % 2) as u64 };
-                let len = if fed {
-                    1 + rng.below((3 * k + 4) as u64) as i64
+            let premature_sig = |waited: bool| {
+                if paced {
+                    format!("expiry-premature|paced-publish-requests|{}|{}", if waited { "some-request-waited-for-the-timer" } else { "every-request-consumed-on-arrival" }, tag)
                 } else {
-                    match rng.below(4) {
-                        0 => rng.range(1, 3),
-                        1 => rng.range(l - 4, l - 3).max(1),
-                        2 => rng.range(l + 2, l + 4),
-                        _ => rng.range(1, l + 4),
-                    }
-                };
-                for _ in 0..len {
+                    format!("expiry-premature|{}", tag)
+                }
+            };
+            {
+                'outer: for fed in sched {
                     let mut got: Vec<(i64, Body)> = Vec::new();
-                    if fed {
+                    if fed && paced {
+                        // exactly one request per arrival (top_up would send a second one when the first is answered at once)
+                        if e.lens().0 < 2 {
+                            let _ = e.publish(t, None);
+                            obs.publishes += 1;
+                            record(e.take(), t, &mut got, obs);
+                        }
+                    } else if fed {
                         let rs = top_up(&mut e, t, 1, obs);
                         record(rs, t, &mut got, obs);
                     }
                     // a request counts as available in this cycle if it is queued now or was answered on arrival
-                    let avail = e.lens().0 > 0 || !got.is_empty();
+                    let queued_now = e.lens().0 > 0;
+                    let avail = queued_now || !got.is_empty();
+                    waited_for_timer |= queued_now;
                     if !got.is_empty() {
                         // responses produced by the arrival of a request
                         let mut expired_now = got.iter().any(|(_, b)| is_timeout(b));
@@ -336,8 +412,8 @@ fn run_case(c: &Case, obs: &mut Obs) -> Vec<Finding> {
                             }
                             if !expired_now {
                                 f.push(Finding {
-                                    sig: format!("expiry-overdue|{}", tag),
-                                    detail: format!("K={} L={}: no BadTimeout status change although the last {} interval ticks found no publish request queued (seed {})", k, l, starved_run, c.seed),
+                                    sig: if paced { format!("expiry-overdue|paced-publish-requests|{}", tag) } else { format!("expiry-overdue|{}", tag) },
+                                    detail: format!("K={} L={}: no BadTimeout status change although the last {} interval ticks found no publish request queued ({})", k, l, starved_run, how),
                                 });
                                 break 'outer;
                             }
@@ -345,8 +421,8 @@ fn run_case(c: &Case, obs: &mut Obs) -> Vec<Finding> {
                         if expired_now {
                             if max_starved_run <= l - 3 {
                                 f.push(Finding {
-                                    sig: format!("expiry-premature|{}", tag),
-                                    detail: format!("K={} L={}: BadTimeout status change although no more than {} consecutive interval ticks ever found the publish request queue empty (seed {})", k, l, max_starved_run, c.seed),
+                                    sig: premature_sig(waited_for_timer),
+                                    detail: format!("K={} L={}: BadTimeout status change at t={}ms ({} intervals after creation) in answer to an arriving publish request, although there never were more than {} consecutive intervals in which no publish request arrived or was queued ({})", k, l, t, t / iv, max_starved_run, how),
                                 });
                             }
                             break 'outer;
@@ -375,8 +451,8 @@ fn run_case(c: &Case, obs: &mut Obs) -> Vec<Finding> {
                         if got.iter().any(|(_, b)| is_timeout(b)) {
                             if max_starved_run <= l - 3 {
                                 f.push(Finding {
-                                    sig: format!("expiry-premature|{}", tag),
-                                    detail: format!("K={} L={}: BadTimeout status change at a tick with a publish request queued, although no more than {} consecutive interval ticks ever found the queue empty (seed {})", k, l, max_starved_run, c.seed),
+                                    sig: premature_sig(waited_for_timer),
+                                    detail: format!("K={} L={}: BadTimeout status change at the timer tick t={}ms ({} intervals after creation), although there never were more than {} consecutive intervals in which no publish request arrived or was queued ({})", k, l, t, t / iv, max_starved_run, how),
                                 });
                             }
                             break 'outer;
@@ -386,7 +462,7 @@ fn run_case(c: &Case, obs: &mut Obs) -> Vec<Finding> {
                     } else if c.enabled && c.items < 2 && fed_run > k + 1 && t - last_msg_t > (k + 1) * iv {
                         f.push(Finding {
                             sig: format!("keepalive-gap|{}|requests-available-for-whole-gap", tag),
-                            detail: format!("K={} L={}: nothing for {} intervals although a request was queued at each of the last {} ticks (seed {})", k, l, (t - last_msg_t) / iv, fed_run, c.seed),
+                            detail: format!("K={} L={}: nothing for {} intervals although a request was queued at each of the last {} ticks ({})", k, l, (t - last_msg_t) / iv, fed_run, how),
                         });
                         break 'outer;
                     }
@@ -459,7 +535,7 @@ pub fn run(args: &Args, rep: &mut Report) {
                         if !thorough && interval == 1000 && items == 2 {
                             continue;
                         }
-                        grid.push(Case { mode: "fed".into(), k, l, interval, div, enabled, items, n: 0, seed: 0 });
+                        grid.push(Case { mode: "fed".into(), k, l, interval, div, enabled, items, n: 0, seed: 0, period: 1, offset: 0, jitter: 0 });
                         let mut ns = vec![le - 3, le - 2, le - 1, le, le + 1, le + 2, le + 5];
                         if thorough {
                             ns.extend([1, le / 2, le + 9]);
@@ -468,7 +544,48 @@ pub fn run(args: &Args, rep: &mut Report) {
                             if n < 1 || (!thorough && div > 1 && items == 1) {
                                 continue;
                             }
-                            grid.push(Case { mode: "starve".into(), k, l, interval, div, enabled, items, n, seed: 0 });
+                            grid.push(Case { mode: "starve".into(), k, l, interval, div, enabled, items, n, seed: 0, period: 1, offset: 0, jitter: 0 });
+                        }
+                    }
+                }
+            }
+        }
+    }
+    // paced: one request every P intervals, first request at creation or once the subscription is late
+    for k in 1..=8u32 {
+        let mut ls: Vec<u32> = vec![3 * k, 3 * k + 2, 30];
+        if thorough {
+            ls.extend([3, 3 * k + 1]);
+            ls.extend((3 * k..=30).step_by(3));
+        }
+        ls.sort();
+        ls.dedup();
+        for &l in &ls {
+            let le = l.max(3 * k) as i64;
+            let mut ps: Vec<i64> = vec![1, 2, 3, k as i64 + 1, le / 2, le - 2, le + 3];
+            if thorough {
+                ps.extend([k as i64, 2 * k as i64 + 1, le - 3, le + 5]);
+            }
+            ps.retain(|p| *p >= 1);
+            ps.sort();
+            ps.dedup();
+            for &period in &ps {
+                for &enabled in &[true, false] {
+                    for items in 0..=2u8 {
+                        if !thorough && !enabled && items == 1 {
+                            continue;
+                        }
+                        let mut offs = vec![0i64, 1, period];
+                        if thorough {
+                            offs.extend([2, period / 2]);
+                        }
+                        offs.retain(|o| *o <= period);
+                        offs.sort();
+                        offs.dedup();
+                        for &offset in &offs {
+                            for jitter in 0..=(if thorough { 1u8 } else { 0 }) {
+                                grid.push(Case { mode: "paced".into(), k, l, interval: 100, div: 1, enabled, items, n: 0, seed: 0, period, offset, jitter });
+                            }
                         }
                     }
                 }
@@ -502,11 +619,47 @@ pub fn run(args: &Args, rep: &mut Report) {
             items: rng.below(3) as u8,
             n: 0,
             seed: rng.next_u64() >> 12,
+            period: 1,
+            offset: 0,
+            jitter: 0,
+        };
+        exec(&c, rep, &mut obs);
+    }
+    // seeded random paced histories
+    let n_paced = args.budget(600, 100_000);
+    for _ in 0..n_paced {
+        let k = 1 + rng.below(8) as u32;
+        let l = match rng.below(3) {
+            0 => 3 * k,
+            1 => 3 * k + rng.below(3) as u32,
+            _ => rng.range(3, 30) as u32,
+        };
+        let le = l.max(3 * k) as i64;
+        let period = match rng.below(4) {
+            0 => rng.range(1, 3),
+            1 => rng.range(1, (le - 2).max(1)),
+            2 => rng.range((le - 4).max(1), le + 4),
+            _ => rng.range(1, le + 4),
+        };
+        let c = Case {
+            mode: "paced".into(),
+            k,
+            l,
+            interval: *rng.pick(&[100i64, 200, 500]),
+            div: 1,
+            enabled: rng.chance(3, 4),
+            items: rng.below(3) as u8,
+            n: 0,
+            seed: rng.next_u64() >> 12,
+            period,
+            offset: if rng.chance(1, 4) { 0 } else { rng.range(1, period.max(1)) },
+            jitter: rng.below(3) as u8,
         };
         exec(&c, rep, &mut obs);
     }
     rep.count("grid_cases", n_grid);
     rep.count("mixed_cases", n);
+    rep.count("paced_random_cases", n_paced);
     rep.count("timer_ticks", obs.ticks);
     rep.count("publish_requests_sent", obs.publishes);
     rep.count("keepalive_messages_observed", obs.keepalives);
